@@ -25,14 +25,13 @@ Lemma unaligned_lw_refuted :
   witness_ok true 4198400 [2349334529] (mksample [] 0 0 7) = false.
 Proof. vm_compute. reflexivity. Qed.
 
-(* kf:mips-div-by-zero-il-error -- div $zero, $t0, $zero: the ISA completes, the IL faults (DivideByZero) *)
-Lemma div_by_zero_refuted :
-  witness_ok true 4198400 [16777242] (mksample [(8, 5)] 0 0 0) = false.
-Proof. vm_compute. reflexivity. Qed.
-
 (* the same encodings with inputs outside the known classes agree *)
 Example jr_slot_not_writing_target_ok :
   witness_ok true 4198400 [52428808; 0] (mksample [(25, 4096)] 0 0 0) = true.
+Proof. vm_compute. reflexivity. Qed.
+(* fixed (was kf:mips-div-by-zero-il-error): div $zero, $t0, $zero completes *)
+Example div_by_zero_completes :
+  witness_ok true 4198400 [16777242] (mksample [(8, 5)] 0 0 0) = true.
 Proof. vm_compute. reflexivity. Qed.
 Example aligned_lw_ok :
   witness_ok true 4198400 [2349334532] (mksample [] 0 0 7) = true.
